@@ -1035,6 +1035,23 @@ def check_group_by(ctx):
         if A.same(t, "%s != ''" % name):
             return -1
         return 0
+    # the default is recognised by comparison with '' -- an empty tuple or list is a legitimate explicit argument
+    # (GroupBy("", merge=()) groups by the whole context) and must not be taken for "nothing given"
+    truthy = []
+    for p in P.paths_of(init):
+        for t, pol in p.literals():
+            if isinstance(t, ast.Name) and t.id in ips[:2]:
+                truthy.append((t, p))
+    seen_t = set()
+    for t, p in truthy:
+        # only a test made before the argument is rebound to its normalised form concerns the caller's value
+        rebound_before = any(isinstance(s, ast.Assign) and any(A.src(x) == t.id for x in s.targets) and s.lineno < t.lineno for s in p.stmts())
+        if rebound_before or t.id in seen_t:
+            continue
+        seen_t.add(t.id)
+        ctx.violation("C15-d", t, "GroupBy.__init__ decides by the truth value of its argument `%s` whether the default was given: an "
+                      "explicitly empty tuple or list (GroupBy('', merge=()), which groups by the entire context) is taken for the "
+                      "default and everything lands in one group" % t.id, construct="init-default-by-truth:%s" % t.id, path=p)
     n_dflt = 0
     for p in P.paths_of(init):
         both = [pol == (is_empty(t, ips[0]) > 0) for t, pol in p.literals() if isinstance(t, ast.Compare) and is_empty(t, ips[0])]
@@ -1046,7 +1063,8 @@ def check_group_by(ctx):
             ok = len(g) == 1 and A.src(g[0].value) in ("tuple()", "()") and len(m) == 1 and A.src(m[0].value) in ("('',)", '("",)')
             ctx.check("C15-d", ok, init, "GroupBy() with default arguments does not use group_by=(), merge=('',)",
                       detail="defaults: everything merged into one group", construct="init-defaults", path=p)
-    ctx.instances_floor("C15-d/defaults", n_dflt, 1, "normal paths of GroupBy.__init__ on which both arguments are the default ''")
+    if not seen_t:
+        ctx.instances_floor("C15-d/defaults", n_dflt, 1, "normal paths of GroupBy.__init__ on which both arguments are the default ''")
     comp = ctx.tree.func(GB, "GroupBy.compute")
     loops = [l for l in A.walk_local(comp) if isinstance(l, ast.For)]
     ok = len(loops) == 1 and A.src(loops[0].iter) in ("self.groups.values()",) and len(loops[0].body) == 1 \
